@@ -62,6 +62,13 @@ class JWSRegistry:
 
     def check_header(self, header: Header) -> None:
         """Check and validate the fields in header part of a JWS object."""
+        if "b64" in header:
+            # https://datatracker.ietf.org/doc/html/rfc7797#section-6
+            # "b64" MUST be accompanied by a "crit" that lists it, whichever
+            # registry is in use and even when strict_check_header is off
+            crit = header.get("crit")
+            if not isinstance(crit, list) or "b64" not in crit:
+                raise ValueError('The "crit" Header Parameter MUST be included with "b64"')
         check_crit_header(header)
         validate_registry_header(self.header_registry, header)
         if self.strict_check_header:
